@@ -23,7 +23,8 @@ Oracle (independent of the model): the same spend judged by the extracted Script
 False accepts are keyed by their cause (smallest counterfactual that makes the specification accept):
 after-final-sequence, older-tx-version-1, sig-parse-laxity, noncanonical-script-reencoded,
 script-elem-01-as-op1, nested-segwit-scriptsig-extra-push (accepted once the scriptSig is the single redeem
-push), native-segwit-scriptsig-nonempty (accepted once the scriptSig is empty); anything else is
+push), native-segwit-scriptsig-nonempty (accepted once the scriptSig is empty), sig-hashtype-byte-not-committed (accepted
+once the signatures that are valid up to their hash-type byte count as valid); anything else is
 `unexplained:<kind>:<mutation>`."""
 import hashlib, json, os, re
 import vlib
